@@ -24,7 +24,8 @@ MsInit(cfg) == [cfg |-> cfg,
                 logged |-> FALSE,     \* logon exchange completed
                 lastSent |-> -1, lastRecv |-> -1, trPending |-> FALSE, trAt |-> -1,   \* C22
                 psent |-> {}, deliv |-> {}, taint |-> {},                              \* C20 / C21
-                sentBy |-> [a |-> {}, b |-> {}], delivAt |-> [a |-> {}, b |-> {}], maxFirst |-> [a |-> 0, b |-> 0]]
+                sentBy |-> [a |-> {}, b |-> {}], delivAt |-> [a |-> {}, b |-> {}], maxFirst |-> [a |-> 0, b |-> 0],
+                lastnr |-> [a |-> 1, b |-> 1], lastns |-> [a |-> 1, b |-> 1]]     \* C21: each side's numbers as last observed (Pair.Restart keeps them)
 
 Prop(m) == m.cfg.prop
 
@@ -319,11 +320,22 @@ C21Step(m, e) ==
            ELSE [ok |-> TRUE, why |-> "", sig |-> "", m |-> m]
     ELSE IF ~Has(e, "post") THEN [ok |-> TRUE, why |-> "", sig |-> "", m |-> m]
     ELSE LET w == e.w
-             t2 == m.taint \cup LabelsOf(e) \cup (IF StepExplained(e, w = "b", FALSE) THEN {} ELSE {"UNEXPLAINED_STEP"})
+             \* a Logon above the expected number is the recorded finding only if it is above the number this side really
+             \* had before the drop/restart (an acceptor shows its recovered number only after the Logon: pre.nr is 1)
+             lab == LabelsOf(e) \ (IF e.e = "Recv" /\ e.in # <<>> /\ e.in[1].type = "A" /\ e.in[1].seq <= m.lastnr[w]
+                                    THEN {"logon_gap_terminated"} ELSE {})
+             t2 == m.taint \cup lab \cup (IF StepExplained(e, w = "b", FALSE) THEN {} ELSE {"UNEXPLAINED_STEP"})
              newsent == {e.out[k].id : k \in {j \in DOMAIN e.out : IsNew(e.out[j]) /\ IsApp(e.out[j])}}
+             news == SelectSeq(e.out, LAMBDA o : IsNew(o))
              wd == WalkDeliv(e.delivered, 1, m.delivAt[w], m.maxFirst[w])
-             m2 == [m EXCEPT !.taint = t2, !.sentBy[w] = @ \cup newsent, !.delivAt[w] = wd.have, !.maxFirst[w] = wd.mx]
+             m2 == [m EXCEPT !.taint = t2, !.sentBy[w] = @ \cup newsent, !.delivAt[w] = wd.have, !.maxFirst[w] = wd.mx,
+                             !.lastnr[w] = IF e.e = "Recv" /\ ~e.pre.shutdown THEN e.post.nr ELSE @,
+                             !.lastns[w] = IF news # <<>> THEN news[Len(news)].seq + 1 ELSE @]
          IN IF ~wd.ok THEN [ok |-> FALSE, why |-> wd.why, sig |-> wd.why \o ":after:" \o TaintSig(t2), m |-> m2]
+            \* Pair.Restart / Reconnect: numbering continues where this side stopped, whatever process or object sends
+            ELSE IF news # <<>> /\ news[1].seq # m.lastns[w]
+            THEN [ok |-> FALSE, why |-> "numbering_not_continued_after_reconnect_or_restart",
+                  sig |-> "numbering_not_continued:" \o w \o ":" \o e.e \o ":after:" \o TaintSig(t2), m |-> m2]
             ELSE IF e.post.shutdown /\ ~e.pre.shutdown /\ e.e \in {"Recv", "Start"}
             THEN [ok |-> FALSE, why |-> "session_terminated_by_its_peer_session",
                   sig |-> "terminated:" \o w \o ":after:" \o TaintSig(t2), m |-> m2]
